@@ -193,6 +193,7 @@ class Ticket:
         self.binding = {}  # id(object) -> split index (an object serves one task only)
         self.keep = []
         self.snap = None
+        self.probe = None
         self.est_key = estimator_key(template)
         self.ref = RefModel(dataset, lambda: sk_clone(template), self.est_key, scoring)
         self.serial_values = None
@@ -403,10 +404,20 @@ def judge_batch(run, ticket, events, values, label):
 
 def check_untouched(run, ticket, when):
     run.evaluated("estimator_untouched")
-    diff = R.snapshot_diff(ticket.snap, R.snapshot(ticket.estimator))
+    diff = R.snapshot_diff(ticket.snap, R.snapshot(ticket.estimator, probe=ticket.probe))
+    if ticket.snap["nested"]:
+        run.evaluated("meta_estimator_untouched_deeply")
+        if diff:
+            run.count("meta_estimator_touched")
+    if _any_prediction(ticket.snap):
+        run.evaluated("fitted_estimator_predicts_the_same")
     if diff:
         run.violation("estimator_untouched", "[%s] the estimator passed in was modified: %s" % (when, "; ".join(diff)[:600]),
                       {"estimator": ticket.est_key, "mode": ticket.mode}, key="touched:" + diff[0].split(" ")[1] if " " in diff[0] else "touched")
+
+
+def _any_prediction(snap):
+    return snap.get("predict") is not None or any(_any_prediction(v) for v in snap["nested"].values())
 
 
 def splits_from_events(run, ds, events):
@@ -550,7 +561,11 @@ def install(tap, run):
         with warnings.catch_warnings():
             warnings.simplefilter("ignore")
             template = sk_clone(est)
-        return {"start": S.mark(), "snap": R.snapshot(est), "template": template,
+        try:
+            probe = tuple(np.array(np.ravel(np.asarray(c)), dtype="float64") for c in a["coordinates"])
+        except Exception:  # noqa: BLE001
+            probe = None
+        return {"start": S.mark(), "snap": R.snapshot(est, probe=probe), "probe": probe, "template": template,
                 "cv_calls": len(cv.calls) if isinstance(cv, R.RecordingCV) else None}
 
     def post_cvs(ev):
@@ -616,6 +631,7 @@ def install(tap, run):
             splits = None
         ticket = Ticket(a["estimator"], pre["template"], ds, splits, a["scoring"], mode, ev.result, ev.parent is not None)
         ticket.snap = pre["snap"]
+        ticket.probe = pre["probe"]
         ticket.given_problems = given
         check_untouched(run, ticket, "after cross_val_score returned")
         S.tickets.append(ticket)
@@ -783,7 +799,10 @@ def judge_splinecv(run, ev):
         return
     # observed scores_
     observed = obj.scores_
-    if mode == "delayed":
+    lazy = len(observed) > 0 and all(hasattr(v, "compute") for v in observed)
+    if lazy != (mode == "delayed"):
+        run.count("note:scores_%s_although_delayed=%s" % ("lazy" if lazy else "computed", obj.delayed))
+    if lazy:
         with S.mute():
             observed = dask.compute(*observed, scheduler="synchronous")
     observed = np.array([float(v) for v in observed])
